@@ -31,7 +31,7 @@ COMPONENTS = {
     'stub': ['joblib.Parallel (SimParallel)', 'user objective with the failure plan (harness world)', 'time.time', 'uuid1'],
 }
 PROBES_EXPECTED = ['exactly_four_serial', 'exactly_four_parallel', 'exactly_five_serial', 'exactly_five_parallel',
-                   'other_serial', 'other_parallel', 'run_family', 'abort_in_run', 'coarse_precision_resample', 'marker_after_reroll']
+                   'other_serial', 'other_parallel', 'run_family', 'abort_in_run', 'coarse_precision_resample', 'marker_after_reroll', 'second_run_after_narrowing']
 
 T = ('timeout', 'runtime')
 OTHER = ('value', 'key', 'zerodiv', 'oserror')
@@ -300,8 +300,23 @@ def _run(D):
         w.fail_p = 0.45
     alg = W.make_algorithm(kind, w, N, G, workers=workers)
     raised = None
+    first_calls = 0
     with W.quiet():
         try:
+            if D.dec('cfg', 'second_run', 4) == 1:
+                # a first (fault-free) study, then the user narrows the box in place and runs again on the same problem
+                # object: replacements of failed designs must be sampled inside the box as it is now
+                fp, w.fail_p = w.fail_p, 0.0
+                alg.run()
+                w.fail_p = fp
+                first_calls = len(w.calls)
+                for wp_, pp_ in zip(w.params, w.problem.parameters):
+                    lb, ub = wp_['bounds']
+                    nb = [lb + 0.25 * (ub - lb), ub - 0.25 * (ub - lb)]
+                    wp_['bounds'] = list(nb)
+                    pp_['bounds'] = list(nb)
+                ctx.probe('second_run_after_narrowing')
+                alg = W.make_algorithm(kind, w, N, G, workers=workers)
             alg.run()
         except (kernel.Deadlock, kernel.StepCap):
             raise
@@ -309,7 +324,7 @@ def _run(D):
             raised = e
     site = 'Job.evaluate'
     by_obj = {}
-    for c in w.calls:
+    for c in w.calls[first_calls:]:
         by_obj.setdefault(c.obj, []).append(c)
     five = False
     markers = {'sat': [], 'vio': []}
@@ -368,7 +383,7 @@ def _run(D):
             else:
                 _marker(ctx, w, markers, ind, fin, site, 'design id %d' % ind.id, nf > 0)
     failed_vecs = [tuple(float(v) for v in f.vector) for f in w.problem.failed]
-    order = [tuple(float(v) for v in c.vector) for c in w.calls if c.outcome in T]
+    order = [tuple(float(v) for v in c.vector) for c in w.calls[first_calls:] if c.outcome in T]
     if workers == 1:
         if failed_vecs != order:
             ctx.violation('failed_list', site, 'problem.failed (%d) differs from the failed vectors in call order (%d)'
